@@ -115,3 +115,52 @@ def preempt_chooser(plan):
     def choose(idx, k):
         return plan.get(idx, 0)
     return choose
+
+
+class CoopLock:
+    """Scheduler-aware stand-in for a threading.Lock used by the code under test.
+
+    A controlled thread that finds the lock taken (by a thread the scheduler has parked) hands the
+    turn to another runnable thread instead of blocking inside the OS lock while holding the turn -
+    which would deadlock the harness, not the program.  Semantics are those of a plain mutex."""
+
+    def __init__(self, scheduler):
+        self.s = scheduler
+        self._lock = threading.Lock()
+
+    def acquire(self, blocking=True, timeout=-1):
+        while not self._lock.acquire(False):
+            if not blocking:
+                return False
+            self.s.yield_to_other()
+        return True
+
+    def release(self):
+        self._lock.release()
+
+    def __enter__(self):
+        self.acquire()
+        return self
+
+    def __exit__(self, *a):
+        self.release()
+
+
+def _yield_to_other(self):
+    me = threading.get_ident()
+    with self.cv:
+        if me not in self.alive:
+            return  # not a controlled thread
+        others = [t for t in self.order if t in self.alive and t != me]
+        if not others:
+            raise SchedTimeout("deadlock: lock held and no other runnable thread")
+        # round robin: the next thread after me in registration order
+        idx = self.order.index(me)
+        nxt = next((t for t in self.order[idx + 1:] + self.order[:idx] if t in self.alive and t != me))
+        self.trace.append((self.points, self.order.index(nxt)))
+        self.turn = nxt
+        self.cv.notify_all()
+        self._wait_turn(me)
+
+
+Scheduler.yield_to_other = _yield_to_other
